@@ -189,7 +189,7 @@ def build_dag(case, maxc=1, is_async=False, mk=None, attrs=None):
     desc.__name__ = "gdesc"
     import inspect
     if viol is not None and viol["how"] == "param":
-        desc.__signature__ = inspect.Signature([inspect.Parameter("p0", inspect.Parameter.POSITIONAL_OR_KEYWORD)])
+        desc.__signature__ = inspect.Signature([inspect.Parameter("p0", inspect.Parameter.POSITIONAL_OR_KEYWORD, **({"default": 5} if viol.get("default") else {}))])
     else:
         desc.__signature__ = inspect.Signature([])
     d = tawazi.dag(desc, max_concurrency=maxc, is_async=is_async)
@@ -358,7 +358,8 @@ def gen_violation(rng, case, k=None):
     setups = [i for i in cand if i in case["setup"]]
     dst = rng.choice(setups) if setups and rng.random() < 0.5 else rng.choice(cand)
     if how == "param":
-        c["viol"] = dict(how="param", src=None, dst=dst, via=via)
+        # the DAG parameter may have a default value: it is a DAG argument all the same
+        c["viol"] = dict(how="param", src=None, dst=dst, via=via, default=bool(rng.random() < 0.5))
     else:
         dbg = [i for i in range(dst) if i in case["debug"]]
         src = rng.choice(dbg) if dbg and rng.random() < 0.5 else rng.randrange(dst)
